@@ -19,6 +19,7 @@ import (
 
 type cfgT struct {
 	Desc    string      `json:"d,omitempty"`
+	Summary string      `json:"sm,omitempty"` // WithInfoSummary (a 3.1 member: dropped for 3.0, an error under StrictDownlevel)
 	TOS     string      `json:"tos,omitempty"`
 	Contact *[3]string  `json:"c,omitempty"`  // name, url, email
 	License *[3]string  `json:"l,omitempty"`  // name, url, identifier (url and identifier exclusive)
@@ -55,6 +56,9 @@ func (g *cfgT) options() []openapi.Option {
 	}
 	if g.TOS != "" {
 		o = append(o, openapi.WithTermsOfService(g.TOS))
+	}
+	if g.Summary != "" {
+		o = append(o, openapi.WithInfoSummary(g.Summary))
 	}
 	if g.Contact != nil {
 		o = append(o, openapi.WithContact(g.Contact[0], g.Contact[1], g.Contact[2]))
@@ -252,6 +256,9 @@ func genCfg(r *hx.Rand, v31 bool) *cfgT {
 	g := &cfgT{}
 	if r.Chance(1, 3) {
 		g.Desc = "An API"
+	}
+	if r.Chance(1, 3) {
+		g.Summary = hx.Pick(r, []string{"Users and orders", "s", "A summary, with a comma"})
 	}
 	if r.Chance(1, 4) {
 		g.TOS = u()
